@@ -27,6 +27,8 @@ RULES = {
     "C04-b": "FRESH: Split._fill / Split.run / Zip._fill hand a per-branch deep copy to every branch but (at most) the last",
     "C04-d": "COPY PROTOCOL: a __deepcopy__ defined in lena passes the content of self on only inside copy.deepcopy(...) "
              "(a shallow hook makes Split's per-branch copies share their nested dictionaries)",
+    "C04-e": "KEEP AND YIELD: a run() that both hands a value of its flow on and keeps it in the element (a group, a store) separates "
+             "the two by a deep copy -- copy.copy of a (data, context) tuple is the same tuple",
     "C04-c": "Split.__init__: copy_buf defaults to True and is stored as bool(copy_buf)",
 }
 
@@ -485,7 +487,65 @@ def check_copy_protocol(ctx):
         ctx.ok("C04-d", ("lena", "<tree>"), "no class of lena customises __deepcopy__ (%d classes): copy.deepcopy copies all they hold" % n_cls)
 
 
+def check_keep_and_yield(ctx):
+    """C04-e.  Tree-wide over generator functions with a flow parameter: on one way through the body of `for val in flow`, the
+    value is yielded (as it is, or through a shallow copy.copy/tuple/list of it) and also passed to a method of something
+    the element keeps (self.<x>.update(val), .append(val), .fill(val), self.<x> = val).  Downstream elements change the
+    context of what they receive in place (MakeFilename, Write, ...): the kept value would change with it."""
+    from .. import paths as P
+    res = ctx.res
+    n = 0
+    bad = 0
+    for mod, fn in ctx.tree.functions():
+        if not A.is_generator(fn) or "flow" not in A.func_params(fn) or "self" not in A.func_params(fn):
+            continue
+        for loop in A.walk_local(fn):
+            if not (isinstance(loop, ast.For) and isinstance(loop.target, ast.Name) and A.root_name(loop.iter) == "flow"):
+                continue
+            v = loop.target.id
+            for p in P.loop_body_paths(loop):
+                shallow_yield = None
+                for _, y in p.yields():
+                    e = y.value
+                    if isinstance(e, ast.Name) and e.id == v:
+                        shallow_yield = y
+                    elif isinstance(e, ast.Call) and res.call_canon(e) in ("copy.copy", "builtins.tuple", "builtins.list") and len(e.args) == 1 \
+                            and isinstance(e.args[0], ast.Name) and e.args[0].id == v:
+                        shallow_yield = y
+                kept = None
+                for _, c in p.calls():
+                    if isinstance(c.func, ast.Attribute) and A.root_name(c.func.value) == "self" and not A.is_self_attr(c.func) \
+                            and c.func.attr in ("update", "append", "add", "fill", "extend", "appendleft", "insert", "setdefault") \
+                            and any(isinstance(a, ast.Name) and a.id == v for a in c.args):
+                        kept = c
+                for st in p.stmts():
+                    if isinstance(st, ast.Assign) and isinstance(st.value, ast.Name) and st.value.id == v and any(
+                            A.root_name(t) == "self" for t in st.targets if isinstance(t, (ast.Attribute, ast.Subscript))):
+                        kept = st
+                n += 1
+                if shallow_yield is not None and kept is not None:
+                    key = (A.qualname(fn), A.src(shallow_yield))
+                    if key in _KY_SEEN:
+                        continue
+                    _KY_SEEN.add(key)
+                    bad += 1
+                    ctx.violation("C04-e", shallow_yield, "%s yields `%s` and keeps the same value in the element (`%s`) [%s]: the object "
+                                  "handed downstream and the one kept share their context (copy.copy of a (data, context) tuple is that "
+                                  "tuple), so what later elements write into the context of the yielded value -- output.filename, "
+                                  "output.changed -- shows up in the kept value and in what is made of it afterwards" % (
+                                      A.qualname(fn), A.src(shallow_yield.value), A.short(kept, 50), p.describe(3)),
+                                  construct="keep-and-yield:%s" % A.qualname(fn), path=p)
+    _KY_SEEN.clear()
+    ctx.instances_floor("C04-e", n, 20, "ways through the value loops of generator methods with a flow parameter")
+    if not bad:
+        ctx.ok("C04-e", ("lena", "<tree>"), "%d ways through value loops: no value both kept and yielded without a deep copy" % n)
+
+
+_KY_SEEN = set()
+
+
 def check(ctx):
+    check_keep_and_yield(ctx)
     check_copy_protocol(ctx)
     check_accumulators(ctx)
     check_split_fill(ctx)
@@ -495,6 +555,7 @@ def check(ctx):
 
 
 VARIANTS = [
+    M("groupplots-yields-shallow-copy", "lena/flow/group_plots.py", "                    yield copy.deepcopy(val)\n                self._group_by.update(val)", "                    yield copy.copy(val)\n                self._group_by.update(val)", ["C04-e"]),
     M("context-shallow-deepcopy", "lena/context/context.py", "    def __getattr__(self, name):", "    def __deepcopy__(self, memo):\n        return Context(self, formatter=self._formatter)\n\n    def __getattr__(self, name):", ["C04-d"]),
     M("context-deepcopy-is-copy", "lena/context/context.py", "    def __getattr__(self, name):", "    __deepcopy__ = dict.copy\n\n    def __getattr__(self, name):", ["C04-d"]),
     M("histogram-deepcopy-shares-bins", "lena/structures/histogram.py", "    def __eq__(self, other):", "    def __deepcopy__(self, memo):\n        new = histogram(self.edges, None)\n        new.bins = list(self.bins)\n        return new\n\n    def __eq__(self, other):", ["C04-d"], nth=0),
